@@ -17,7 +17,8 @@
 (* Observations ("x" events):  trbeg / tr(k,id) / trend  = a traversal at quiescence: keys strictly increasing when       *)
 (* Ordered, each present key exactly once;  dispose(id): the element must not be in the container.                        *)
 EXTENDS LinCore
-CONSTANTS Replace, Ordered, MinMaxExact
+CONSTANTS Replace, Ordered, MinMaxExact,
+          IterMode     \* C19: "none" | "once" (IterableList and the sets built on it) | "atleast" (Feldman)
 IfSet(c, s) == IF c THEN {s} ELSE {}
 KeyOf(id) == id \div 100
 Has(m, k) == \E p \in m : p[1] = k
@@ -66,5 +67,23 @@ PresentThroughout(p, i, j) == /\ \E a \in InvIdx(p) : IsIns(Raw[a]) /\ Raw[a].a 
 MinMaxOK(p) == \A i \in InvIdx(p) : (Raw[i].op \in {"extmin", "extmax"} /\ Raw[i].r = 1) =>
                  LET k == KeyOf(Raw[i].v) IN
                  \A j \in 0..99 : (IF Raw[i].op = "extmin" THEN j < k ELSE j > k) => ~PresentThroughout(p, i, j)
-SetFinal(s, p) == MinMaxOK(p)
+\* ---- history predicates for thread-safe iterators (C19) ----
+\* observations of the iterating thread t:  itbeg, it(key, id) for every element yielded, itend
+XIdx(p, op) == { i \in (p + 1)..EndOf(p) : Raw[i].e = "x" /\ Raw[i].op = op }
+ItEnd(p, b) == CHOOSE e \in XIdx(p, "itend") : e > b /\ Raw[e].t = Raw[b].t /\ \A f \in XIdx(p, "itend") : (f > b /\ Raw[f].t = Raw[b].t) => e <= f
+Yields(p, b) == { i \in XIdx(p, "it") : i > b /\ i < ItEnd(p, b) /\ Raw[i].t = Raw[b].t }
+\* key j is present for the whole iteration: a successful insert returned before itbeg, no successful removal invoked before itend
+PresentWhole(p, b, j) == /\ \E a \in InvIdx(p) : IsIns(Raw[a]) /\ Raw[a].a = j /\ RetOf(p, a) < b
+                         /\ ~(\E r \in InvIdx(p) : RemKey(Raw[r]) = j /\ r < ItEnd(p, b))
+IsInsLike(e) == e.op \in {"ins", "insf", "emp", "upd1", "upd0"}
+IterOK(p) == \A b \in XIdx(p, "itbeg") :
+     LET Y == Yields(p, b) IN
+     \* completeness: every element present for the whole iteration is visited (exactly once / at least once)
+     /\ \A j \in 0..99 : PresentWhole(p, b, j) =>
+            LET n == Cardinality({ y \in Y : Raw[y].a = j }) IN IF IterMode = "once" THEN n = 1 ELSE n >= 1
+     \* soundness: a yielded element was passed to an insert-type operation invoked before the yield
+     /\ \A y \in Y : \E a \in InvIdx(p) : a < y /\ IsInsLike(Raw[a]) /\ Raw[a].b = Raw[y].b /\ Raw[a].a = Raw[y].a
+     \* order (IterableList): strictly increasing keys
+     /\ (Ordered /\ IterMode = "once") => \A y1, y2 \in Y : y1 < y2 => Raw[y1].a < Raw[y2].a
+SetFinal(s, p) == MinMaxOK(p) /\ (IterMode # "none" => IterOK(p))
 =============================================================================
